@@ -278,6 +278,12 @@ where
         //
         return Ok(());
     } // end of sketch_batch
+
+    /// verification hook: per-position (l, value) pair deciding which hash is stored
+    #[cfg(probminhash_verif)]
+    pub fn verif_state(&self) -> (Vec<usize>, Vec<usize>) {
+        (self.l.clone(), self.values.clone())
+    }
 } // end of impl SuperMinHash2
 
 //===============================================================================================
